@@ -3,6 +3,7 @@ import RSV.Props.C17leo
 import RSV.Props.C04gf8
 import RSV.Props.C04range
 import RSV.Props.C04gf16
+import RSV.Props.C04leoAll
 import RSV.Props.Consts
 /-!
 # C04 umbrella — Leopard Encode
